@@ -215,7 +215,7 @@ def decode(input, errors="strict", encoding=None, force=True):
 
     if encoding is None or not force:
         (_encoding, explicit) = detectencoding_str(input, True)
-        if _encoding == "css":
+        if _encoding.lower() == "css":  # (codec names are case-insensitive)
             raise ValueError("css not allowed as encoding name")
         if (explicit and not force) or encoding is None:  # Take the encoding from the input
             encoding = _encoding
@@ -236,7 +236,7 @@ def encode(input, errors="strict", encoding=None):
             input = _fixencoding(input, "utf-8", True)
     else:
         input = _fixencoding(input, str(encoding), True)
-    if encoding == "css":
+    if encoding.lower() == "css":  # (codec names are case-insensitive)
         raise ValueError("css not allowed as encoding name")
     encoder = codecs.getencoder(encoding)
     return (encoder(input, errors)[0], consumed)
@@ -295,7 +295,7 @@ if hasattr(codecs, "IncrementalDecoder"):
                     if encoding is None:  # no encoding determined yet
                         self.buffer = input  # retry the complete input on the next call
                         return ""  # no encoding determined yet, so no output
-                    elif encoding == "css":
+                    elif encoding.lower() == "css":  # (codec names are case-insensitive)
                         raise ValueError("css not allowed as encoding name")
                     if (explicit and not self.force) or self.encoding is None:  # Take the encoding from the input
                         self.encoding = encoding
@@ -393,7 +393,7 @@ if hasattr(codecs, "IncrementalEncoder"):
                         # unterminated '@charset "' and nothing more to come
                         self.encoding = "utf-8"
                 if self.encoding is not None:
-                    if self.encoding == "css":
+                    if self.encoding.lower() == "css":
                         raise ValueError("css not allowed as encoding name")
                     info = codecs.lookup(self.encoding)
                     encoding = self.encoding
@@ -466,7 +466,7 @@ class StreamWriter(codecs.StreamWriter):
                 # Use encoding from the @charset declaration
                 self.encoding = detectencoding_unicode(input, False)[0]
             if self.encoding is not None:
-                if self.encoding == "css":
+                if self.encoding.lower() == "css":
                     raise ValueError("css not allowed as encoding name")
                 self.streamwriter = codecs.getwriter(self.encoding)(self.stream, self._errors)
                 encoding = self.encoding
@@ -508,7 +508,7 @@ class StreamReader(codecs.StreamReader):
                 (encoding, explicit) = detectencoding_str(input, False)
                 if encoding is None:  # no encoding determined yet
                     return ("", 0)  # no encoding determined yet, so no output
-                elif encoding == "css":
+                elif encoding.lower() == "css":  # (codec names are case-insensitive)
                     raise ValueError("css not allowed as encoding name")
                 if (explicit and not self.force) or self.encoding is None:  # Take the encoding from the input
                     self.encoding = encoding
